@@ -33,7 +33,7 @@ def _combo(k: int, pkg: dict) -> dict:
 
 
 def make_cases(seed: int, tier: str, n_cases: int | None = None) -> list[dict]:
-    n = n_cases or (32 if tier == "quick" else 1500)
+    n = n_cases or (32 if tier == "quick" else 600)
     n_sched = 3 if tier == "quick" else 4
     cases = []
     probe_names = sorted(probes.PROBES)
